@@ -575,23 +575,23 @@ RULES.update({
 
 RULES['C06'] = 'hostile inputs per type in 8 classes (random bytes, byte-mutated valid encodings, truncations, adversarial length varints incl. wrap-around values, partial map entries / nested cuts, random records with arbitrary wire types, over-long varints, group tags) x 4 entry points (Unmarshal, Merge+DiscardUnknown, AllowPartial, direct ProtoMethods().Unmarshal with zero Depth), plus nesting chains of depth 100..1000000 along every recursive field cycle; non-trivial = non-empty input; distinct by type+input bytes'
 
-RULES['C07'] = 'encodings (with unknown records, bytes/string in every position) placed in mmap pages flush against a PROT_NONE guard page; pages are read-only during Unmarshal, overwritten and unmapped afterwards while the message is fingerprinted and re-marshalled; struct fingerprints (incl. nil-vs-empty, sizeCache, oneof wrapper) around 17 read-only operations, also on structs with empty-but-allocated containers; Marshal outputs of 6 entry points scribbled / message byte slices flipped; non-trivial = non-empty input; distinct by type+input'
+RULES['C07'] = 'encodings (with unknown records, bytes/string in every position) placed in mmap pages flush against a PROT_NONE guard page; pages are read-only during Unmarshal, overwritten and unmapped afterwards while the message is fingerprinted and re-marshalled; struct fingerprints (incl. nil-vs-empty, sizeCache, oneof wrapper) around 17 read-only operations, also on structs with empty-but-allocated containers; Marshal outputs of 6 entry points scribbled / message byte slices flipped (also for messages holding only unknown fields); appending Marshal with caller-owned bytes already in the buffer (with/without spare capacity) leaves them intact; non-trivial = non-empty input; distinct by type+input'
 
-RULES['C15'] = 'Sov/Soz: EXHAUSTIVE over every x in [0,2^32) as low word, as x<<32 and x<<32|0xffffffff, plus all 64 bit-length boundaries +-2, against protowire; EncodeVarint: boundaries at offsets 10..20 and a stride sample (quick) / full 32-bit range (thorough) with canary bytes on both sides; Skip: seeded well-formed records (all wire types, groups nested to depth 64) with and without tails, mutated records, random bytes and adversarial lengths, against protowire.ConsumeField; distinct by value / input'
-RULES['C16'] = 'seeded values of every subject type packed with New / MarshalFrom(Deterministic) / the deprecated any alias, unpacked through the default registry, through an empty type registry (file-registry + dynamicpb path) and through a custom file registry; hostile Any values (URLs naming enums, enum values, services, methods, fields, oneofs, nothing, garbage, host-prefixed; corrupt values) under 4 resolver configurations; failed packs with sentinel destinations; distinct by type+value / url+resolver'
+RULES['C15'] = 'Sov/Soz: EXHAUSTIVE over every x in [0,2^32) as low word, as x<<32 and x<<32|0xffffffff, plus all 64 bit-length boundaries +-2, against protowire; EncodeVarint: boundaries at offsets 10..20 and a stride sample (quick) / full 32-bit range (thorough) with canary bytes on both sides; Skip: seeded well-formed records (all wire types, groups nested to depth 64; groups nested 9998..10003 and 20000 deep around protowire's limit; 10001..12000 sibling groups) with and without tails, mutated records, random bytes and adversarial lengths, against protowire.ConsumeField; distinct by value / input'
+RULES['C16'] = 'seeded values of every subject type packed with New / MarshalFrom(Deterministic) / the deprecated any alias, unpacked through the default registry, through an empty type registry (file-registry + dynamicpb path) and through a custom file registry; hostile Any values (URLs naming enums, enum values, services, methods, fields, oneofs, extensions, nothing, garbage, host-prefixed - the whole list once per type in every tier; corrupt values) under 4 resolver configurations; failed packs with sentinel destinations; distinct by type+value / url+resolver'
 RULES['C17'] = 'Add/AddStd/Compare vs math/big nanosecond arithmetic: exhaustive grid over carry/borrow boundary values of nanos x sign combinations x range extremes, seeded random valid (t,d) pairs, an overflow class with arbitrary int64 seconds; Compare on all pairs of a pool incl. equal and adjacent instants + transitivity triples; non-trivial = non-zero duration / distinct pool elements'
 RULES['C18'] = 'rapidproto.MessageGenerator draws (rapid Example with seeded seeds) for every subject type and a dynamicpb twin under the 16 combinations of NoEmptyLists / DisallowNilMessages / a string field mapper / Any type URLs; every drawn message is walked by reflection (UTF-8, Timestamp/Duration validity, Any resolvable+decodable, FieldMask paths, declared enum numbers, option obligations) and round-tripped through the reference codec; distinct by type+options+seed'
 
-RULES['C08'] = 'operation histories (30-60 steps, seeded; plus EXHAUSTIVELY every sequence of up to 3 (quick) / 4 (thorough) letters of a 73-letter alphabet of short reflection operations on the compact all-shapes message vf.small.Small) over Has/Get/Set/Clear/Mutable/NewField/WhichOneof/Range/GetUnknown/SetUnknown/IsValid and every List and Map method, with retained view handles (lists, maps, nested messages, detached NewField values, read-only empty views) driven in lock-step on fast reflection, protobuf-go table-driven reflection over a second struct of the same type, and dynamicpb; after every step return values, validity flags, panics and the full message state (Go struct read with package reflect vs dynamicpb state, and the generated Range view vs its own struct) are compared; a third of the histories start from a populated message; non-trivial = history has >=1 step; distinct by type + operation sequence'
+RULES['C08'] = 'operation histories (30-60 steps, seeded; plus EXHAUSTIVELY every sequence of up to 3 (quick) / 4 (thorough) letters of a 73-letter alphabet of short reflection operations on the compact all-shapes message vf.small.Small) over Has/Get/Set/Set-of-own-value/Clear/Mutable/NewField/WhichOneof/Range/GetUnknown/SetUnknown/IsValid and every List and Map method, with retained view handles (lists, maps, nested messages, detached NewField values, read-only empty views) driven in lock-step on fast reflection, protobuf-go table-driven reflection over a second struct of the same type, and dynamicpb; after every step return values, validity flags, panics and the full message state (Go struct read with package reflect vs dynamicpb state, and the generated Range view vs its own struct) are compared; a third of the histories start from a populated message; non-trivial = history has >=1 step; distinct by type + operation sequence'
 
 RULES['C09'] = 'EXHAUSTIVE over subject types x fields x listed reads: for (*T)(nil), Type().Zero(), new(T) and the read-only values returned by Get for every unpopulated message/list/map field (chains to depth 3): Has, Get (vs dynamicpb defaults), Range, WhichOneof, GetUnknown, IsValid, Size, Marshal, MarshalAppend, Equal (both orders), Clone, Merge-from, protojson/prototext (vs reference output), CheckInitialized; writes (Set, Mutable, SetUnknown, List.Append, Map.Set) must panic; structs holding nil list elements, nil map values and oneof wrappers holding nil are compared with protobuf-go reflection over an identical struct on 9 read-only entry points; distinct by type + subject kind'
 
 RULES['C12'] = 'plugin built from the working tree run on the schema corpus (kind x shape x tag-width matrix, all map key/value pairs, interleaved oneofs, maps at depth, nesting/recursion, cross-package graphs with M mappings and source_relative paths, well-known types, name-collision cases for fields and oneofs, custom options/services, the repository\'s own schemas regenerated, negative requests) plus seeded random schema sets; each emitted package compiled separately; every emitted type driven by the codec/wire/total/alias/reflectdiff/nilread engines at smoke size; non-trivial = every plugin invocation and every behavioural case; distinct by schema set / case'
-RULES['C13'] = 'same request repeated in fresh processes (new map-iteration seeds) and compared byte-for-byte; file_to_generate permuted, reversed, reduced to subsets and to single files (per-file content must not change); 4 environment perturbations incl. a renamed binary run from another directory and an empty environment; regex scan of outputs for dates, times, absolute paths, toolchain versions; one run under strace with an allow-list of opened paths and no network/exec/write; distinct by (kind, request, variant)'
+RULES['C13'] = 'same request repeated in fresh processes (new map-iteration seeds) and compared byte-for-byte; file_to_generate permuted, reversed, reduced to subsets and to single files (per-file content must not change; incl. two proto packages sharing one Go package); 4 environment perturbations incl. a renamed binary run from another directory and an empty environment; regex scan of outputs for dates, times, absolute paths, toolchain versions; one run under strace with an allow-list of opened paths and no network/exec/write; distinct by (kind, request, variant)'
 
 RULES['C10'] = 'seeded values of every subject type (valid UTF-8, quiet NaNs) materialised as generated struct and as dynamicpb (for fresh types built on the schema as given to the generator): Equal (self, same value, single-field-perturbed variants in both argument orders), Clone (equal, same Go type, independent after mutating the clone), Merge (vs reference, no aliasing of src), CheckInitialized incl. variants with an unset required field inside embedded proto2 messages, protojson (3 option sets) and prototext marshal output byte-compared with the reference and parsed back into both, Reset; non-trivial = message with >=1 populated field; distinct by type+value'
 
-RULES['C11'] = 'per subject type several shared messages (built by struct construction, decoder, fast reflection Set, Clone; mostly-unset variants included); 16 goroutines released by a barrier each run 16 read-only operations (Size, Marshal both modes, Has/Get of every field incl. unset ones, Range, WhichOneof, Equal, Clone-from, Merge-from, protojson with and without EmitUnpopulated, prototext, getters, first use of the table-driven reflection, CheckInitialized, plain struct reads) in a seeded permutation under the Go race detector; the first use of every type is concurrent; results compared with a sequential reader afterwards; distinct by type+round+message'
+RULES['C11'] = 'per subject type several shared messages (built by struct construction, decoder, fast reflection Set, Clone; mostly-unset variants included); 16 goroutines released by a barrier each run 16 read-only operations (Size, Marshal both modes, Has/Get of every field incl. unset ones, Range, WhichOneof, Equal, Clone-from, Merge-from, protojson with and without EmitUnpopulated, prototext, getters, first use of the table-driven reflection, CheckInitialized, plain struct reads) in a seeded permutation under the Go race detector; the first use of every type is concurrent; readers overwrite and append to the bytes Marshal gave them; every sixth round shares a message holding only unknown fields; results compared with a sequential reader afterwards; distinct by type+round+message'
 
 RULES['C19'] = 'structural part exhaustive per package: registered file descriptors of freshly generated packages compared with the FileDescriptorProto given to the generator (options included); the checked-in packages and cosmos.pb.go compared with the repository .proto files read by a small proto3 reader (package, imports, messages, fields, numbers, kinds, oneofs, maps, nested types, enums, services, custom options, extensions); registry lookups, descriptor identity, Type/New/Zero Go types, struct tags and Go field types vs descriptors, enum String/Number/Descriptor for every declared value; value part: seeded values per type, every getter (also on the nil receiver) vs Get, String() parsed back, Reset(); distinct by file / type / value'
 
